@@ -17,7 +17,7 @@ SIG = {'consts': '', 'aliases': ''}
 encode = default_encode(SIG)
 decode = default_decode(SIG)
 SOURCES = ['c01', 'c02', 'c03', 'c05', 'c06', 'c07', 'c08', 'c10', 'c11', 'c12', 'c14', 'c15', 'c18', 'c19', 'c20']
-HEAVY = {'c03': 5}   # budget multipliers: division needs volume for the rare Knuth-D paths to differ between digit sizes
+HEAVY = {'c03': 5, 'c10': 4}   # budget multipliers: division needs volume for the rare Knuth-D paths to differ between digit sizes
 RULE = ('(a) for every width that exists in >= 2 digit types, the requests of the C01/02/03/05/06/07/08/10/11/12/14/15/18/19/20 generators are sent to '
         'every representation and every outcome is compared textually across representations (hashes and digit-operand forms '
         'excluded; outcomes the property leaves open are skipped); (b) for 16 (narrow, wide) pairs across digit types the checked '
